@@ -154,7 +154,7 @@ def grad_stage(p, res):
     import torch
     from kmc.rngseam import Frozen, Seam
     st, par, cplx = p["stage"], p["par"], p["cplx"]
-    values = {"power": [0.05, 2.0], "snr": [3.0, 25.0], "none": [None]}[par]
+    values = {"power": [0.05, 2.0], "snr": [3.0, 25.0, 0.0], "none": [None]}[par]        # (0 dB: a legal value that is falsy in Python)
     for val in values:
         ch = make_stage(st, par, val)
         for shape in ((2, 6), (3, 2, 4)):
